@@ -71,6 +71,7 @@ pub struct Graph {
     pub capped: bool,
     pub transitions: usize,
     pub log_records: usize,
+    pub log_templates: std::collections::BTreeSet<u64>,
 }
 
 pub struct ExploreOpts {
@@ -137,6 +138,7 @@ pub struct StepOut {
     pub msg: Option<Value>,
     pub panicked: bool,
     pub log_records: usize,
+    pub log_templates: Vec<u64>,
 }
 
 /// Apply one action to a fork of `c` (the real code runs here).
@@ -198,7 +200,8 @@ pub fn step(w: &World, c: &Client, a: Action) -> StepOut {
     };
     let recs = logcap::end();
     let leaks = logcap::scan(&recs, &w.secrets);
-    StepOut { client: f, result, leaks, msg, panicked, log_records: recs.len() }
+    let log_templates: Vec<u64> = recs.iter().map(|r| h64(&logcap::template(r))).collect();
+    StepOut { client: f, result, leaks, msg, panicked, log_records: recs.len(), log_templates }
 }
 
 /// Breadth-first search of everything `member` can reach.
@@ -206,7 +209,7 @@ pub fn explore(w: &World, member: &str, opts: &ExploreOpts) -> Graph {
     let pool_ids = w.pool_ids();
     let welcome_ids = w.welcome_ids();
     let init = w.initial[member].fork();
-    let mut g = Graph { member: member.to_string(), regime: opts.regime, states: vec![], edges: vec![], capped: false, transitions: 0, log_records: 0 };
+    let mut g = Graph { member: member.to_string(), regime: opts.regime, states: vec![], edges: vec![], capped: false, transitions: 0, log_records: 0, log_templates: Default::default() };
     let mut index: HashMap<u64, usize> = HashMap::new();
     let mut live: BTreeMap<usize, Client> = BTreeMap::new();
     let s0 = snapshot_state(&init, w, &pool_ids, &welcome_ids, 0, None, opts.keep_key_json);
@@ -224,6 +227,7 @@ pub fn explore(w: &World, member: &str, opts: &ExploreOpts) -> Graph {
             let out = step(w, &c, a);
             g.transitions += 1;
             g.log_records += out.log_records;
+            g.log_templates.extend(out.log_templates.iter().copied());
             let mut rec = snapshot_state(&out.client, w, &pool_ids, &welcome_ids, depth + 1, Some((si, a)), opts.keep_key_json);
             let has_pending = rec.g.as_ref().map(|g| g.pending_commit).unwrap_or(false);
             rec.auto_pending = has_pending && (g.states[si].auto_pending || out.result == "Proposal");
